@@ -17,6 +17,7 @@ type poolEvent struct {
 	Actor int    `json:"a,omitempty"`
 	B     int    `json:"b,omitempty"`
 	Conn  int    `json:"conn,omitempty"`
+	Kind  string `json:"close_behaviour,omitempty"` // put-fresh: how the new connection answers Close (conn_kinds.go)
 	D     string `json:"d,omitempty"`
 	Res   string `json:"res,omitempty"`
 }
@@ -27,6 +28,9 @@ type poolCfg struct {
 	MaxActive   int `json:"max_active"`
 	IdleTimeout int `json:"idle_timeout_s"`
 	Actors      int `json:"actors"`
+	// real connections (net.Pipe / TLS over it) dialled before the history starts, outside the virtual
+	// clock; a put-fresh event may take the next one instead of a fake
+	Real []string `json:"real_conns,omitempty"`
 }
 
 // TestC20PoolSequential: generated histories over the pool's exported API in virtual time.
@@ -34,6 +38,8 @@ func TestC20PoolSequential(t *testing.T) {
 	const name = "pool-sequential-histories"
 	sub := lab.Sub(name, "rapid state machine in virtual time (testing/synctest; pool constructed outside the bubble): 1-2 backends, max_idle 0..3, idle_timeout 1..60 s, 1-3 actors; history of <= 40 (quick) / 80 (thorough) events over "+
 		"{put(b, fresh connection), put(b, a connection the actor holds), get(b), close(b, held), advance (below / above idle_timeout, 1 ms, 31 s), cleanup (VerifCleanup hook), shutdown}; actors only return or close connections they hold; fake net.Conns record Close; "+
+		"every freshly dialled connection draws how it answers Close: 55 % return nil at once, 25 % report an error while closing all the same (TLS close_notify undeliverable, connection reset, use of closed connection, bare I/O error), 20 % take 1 ms-5 s of virtual time (some then report a timeout / reset), "+
+		"and one history in four carries 1-3 real connections dialled beforehand (net.Pipe; TLS 1.2 over it with a peer that keeps reading; TLS 1.2 whose peer is gone, so that tls.Conn.Close itself reports the failed close_notify); "+
 		"oracle after every event: a connection returned by get is not closed, is not held by any actor, and was returned to the pool <= idle_timeout ago; Stats idle <= max_idle and the number of open connections the pool holds <= max_idle; a refused put has closed the connection; "+
 		"after shutdown every connection the pool held is closed and Stats is 0/0 for every backend; non-trivial = a get after an advance, or a put while the pool holds max_idle connections")
 	sub.NontrivialFloor(0.50)
@@ -42,6 +48,8 @@ func TestC20PoolSequential(t *testing.T) {
 	sub.Floor("put-refused", 0.30)
 	sub.Floor("shutdown-with-idle", 0.15)
 	sub.Floor("max_idle-0", 0.08)
+	sub.Floor("conn-close-reports-error", 0.30)
+	sub.Floor("shutdown-meets-failing-close", 0.10)
 	lab.Assume("pool: the WebSocket pool is not wired into the proxy path of this codebase, so its invariants are decided on the pool object (loadbalancer.NewWebSocketPool) through its exported API; the janitor is driven through the VerifCleanup hook; the pool's own 30 s ticker stays on the real clock")
 	lab.Assume("pool objects are reused between cases (one per (max_idle, max_active, idle_timeout) triple, because the janitor goroutine of a pool can never be stopped): every case starts from Shutdown + verified Stats 0/0 and ends with Shutdown; a real-clock janitor tick that lands inside a case (about 1 case in 10^5) can only close idle connections early, which no clause of the oracle forbids")
 	lab.Assume("pool callers are sound: Put/Close only with a connection the caller holds (freshly dialled or obtained from Get) and for the backend it belongs to; nil connections and double returns are not generated")
@@ -51,6 +59,14 @@ func TestC20PoolSequential(t *testing.T) {
 			IdleTimeout: rapid.SampledFrom([]int{1, 1, 2, 5, 29, 30, 31, 59, 60}).Draw(rt, "idletimeout"), Actors: rapid.IntRange(1, 3).Draw(rt, "actors")}
 		pc.MaxActive = pc.MaxIdle + rapid.IntRange(0, 5).Draw(rt, "maxactive")
 		n := rapid.IntRange(1, maxLen).Draw(rt, "n")
+		// connection behaviours: most histories use fakes only; about one in six also gets 1-3 real connections
+		nReal := rapid.SampledFrom([]int{0, 0, 0, 0, 0, 0, 0, 0, 0, 0, 1, 2, 3}).Draw(rt, "realconns")
+		var realKinds []closeKind
+		for i := 0; i < nReal; i++ {
+			k := closeKinds[rapid.IntRange(kindRealFirst, kindRealLast).Draw(rt, "realkind")]
+			realKinds = append(realKinds, k)
+			pc.Real = append(pc.Real, k.Name)
+		}
 		T := time.Duration(pc.IdleTimeout) * time.Second
 		// outside the bubble: the pool owns a never-ending janitor goroutine (one pool per parameter triple, emptied by Shutdown)
 		pool, stale := cachedPool(pc.MaxIdle, pc.MaxActive, T, pc.Backends)
@@ -64,11 +80,72 @@ func TestC20PoolSequential(t *testing.T) {
 		wd := lab.StartWatchdog(t.Name(), name, lab.NoProgress, func() any { return map[string]any{"cfg": pc, "events": evs} })
 		defer wd.Stop()
 		defer pool.Shutdown() // also when the case fails half-way: the next case starts from an empty pool
+		// real connections are dialled here, on the real clock, and torn down when the case is over
+		var releases []func()
+		defer func() {
+			for _, r := range releases {
+				r()
+			}
+		}()
+		var all, prepared []*fakeConn
+		for _, k := range realKinds {
+			c, release, err := newConn(0, 0, k, true)
+			if err != nil {
+				rt.Fatalf("harness: could not build a %s connection: %v", k.Name, err)
+			}
+			releases = append(releases, release)
+			prepared = append(prepared, c)
+		}
 		rapid.SyncTest(rt, func(rt *rapid.T) {
 			m := newPoolModel(pc.MaxIdle, T)
 			nextID := 0
 			advanced := false
-			fresh := func(b int) *fakeConn { nextID++; return &fakeConn{ID: nextID, Backend: b} }
+			// a freshly dialled connection: its close behaviour is drawn (55 % clean, 25 % Close reports an
+			// error, 20 % Close takes 1 ms..5 s of virtual time, some of those also reporting an error);
+			// while real connections are left for this case, three in ten take the next one
+			fresh := func(b int) *fakeConn {
+				nextID++
+				k := closeKinds[kindClean]
+				if len(prepared) > 0 && rapid.IntRange(0, 9).Draw(rt, "takereal") >= 7 {
+					c := prepared[0]
+					prepared = prepared[1:]
+					c.ID, c.Backend = nextID, b
+					labels["conn-real"] = true
+					labels["conn-"+c.kind] = true
+					all = append(all, c)
+					return c
+				} else {
+					switch w := rapid.IntRange(0, 99).Draw(rt, "closekind"); {
+					case w < 55:
+					case w < 80:
+						k = closeKinds[rapid.IntRange(kindErrFirst, kindErrLast).Draw(rt, "errkind")]
+					default:
+						k = closeKinds[rapid.IntRange(kindSlowFirst, kindSlowLast).Draw(rt, "slowkind")]
+					}
+				}
+				c, _, _ := newConn(nextID, b, k, true) // fake kinds need no peer
+				if k.Err != nil {
+					labels["conn-close-reports-error"] = true
+				}
+				if k.slow() {
+					labels["conn-close-takes-time"] = true
+				}
+				all = append(all, c)
+				return c
+			}
+			// the connections the pool holds for backend b according to the model, oldest first, with what
+			// each one does on Close - for messages
+			describeIdle := func(held []*fakeConn) string {
+				out := ""
+				for _, c := range held {
+					state := "closed"
+					if !c.isClosed() {
+						state = "STILL OPEN"
+					}
+					out += fmt.Sprintf("\n    connection %d (backend %d, %s): %s", c.ID, c.Backend, c.closeReport(), state)
+				}
+				return out
+			}
 			// invariants that hold after every event
 			check := func(i int) string {
 				for b := 0; b < pc.Backends; b++ {
@@ -92,7 +169,7 @@ func TestC20PoolSequential(t *testing.T) {
 					c := fresh(b)
 					atLimit := m.openIdle(b) >= pc.MaxIdle
 					ok := pool.Put(backendKey(b), c)
-					evs = append(evs, poolEvent{Op: "put-fresh", Actor: a, B: b, Conn: c.ID, Res: fmt.Sprint(ok)})
+					evs = append(evs, poolEvent{Op: "put-fresh", Actor: a, B: b, Conn: c.ID, Kind: c.kind, Res: fmt.Sprint(ok)})
 					viol = afterPut(m, pc, i, b, c, ok, labels)
 					if atLimit {
 						nontrivial = true
@@ -139,7 +216,9 @@ func TestC20PoolSequential(t *testing.T) {
 							break
 						}
 						if bb, idx, ok := m.findIdle(fc); ok {
-							age := now.Sub(m.idle[bb][idx].since)
+							// idle time at the moment the connection is handed over (the call itself may have
+							// taken time: stale entries it met on the way were closed first)
+							age := time.Since(m.idle[bb][idx].since)
 							if age > T {
 								viol = fmt.Sprintf("event #%d: get(%d) returned connection %d, idle for %v, idle_timeout is %v", i, b, fc.ID, age, T)
 								break
@@ -193,6 +272,7 @@ func TestC20PoolSequential(t *testing.T) {
 							}
 						}
 					}
+					shutdownLabels(m, pc, labels)
 					pool.Shutdown()
 					evs = append(evs, poolEvent{Op: "shutdown", Res: fmt.Sprintf("%d idle", len(heldByPool))})
 					labels["shutdown"] = true
@@ -201,7 +281,8 @@ func TestC20PoolSequential(t *testing.T) {
 					}
 					for _, c := range heldByPool {
 						if !c.isClosed() {
-							viol = fmt.Sprintf("event #%d: after shutdown connection %d (idle in the pool of backend %d) is still open", i, c.ID, c.Backend)
+							viol = fmt.Sprintf("event #%d: after shutdown connection %d (idle in the pool of backend %d) is still open; the pool held, oldest first:%s", i, c.ID, c.Backend, describeIdle(heldByPool))
+							break
 						}
 					}
 					for b := 0; b < pc.Backends && viol == ""; b++ {
@@ -224,10 +305,12 @@ func TestC20PoolSequential(t *testing.T) {
 						heldByPool = append(heldByPool, e.c)
 					}
 				}
+				shutdownLabels(m, pc, labels)
 				pool.Shutdown()
 				for _, c := range heldByPool {
 					if !c.isClosed() {
-						viol = fmt.Sprintf("final shutdown: connection %d (idle in the pool of backend %d) is still open", c.ID, c.Backend)
+						viol = fmt.Sprintf("final shutdown: connection %d (idle in the pool of backend %d) is still open; the pool held, oldest first:%s", c.ID, c.Backend, describeIdle(heldByPool))
+						break
 					}
 				}
 			} else {
@@ -235,6 +318,11 @@ func TestC20PoolSequential(t *testing.T) {
 			}
 		})
 		wd.Stop() // the guarded calls have returned; what follows is harness bookkeeping
+		for _, c := range all {
+			if e, _ := c.lastErr.Load().(string); e != "" {
+				labels["pool-saw-close-error"] = true
+			}
+		}
 		ls := []string{fmt.Sprintf("max_idle-%d", pc.MaxIdle), fmt.Sprintf("backends-%d", pc.Backends)}
 		for l := range labels {
 			ls = append(ls, l)
@@ -261,4 +349,27 @@ func afterPut(m *poolModel, pc poolCfg, i, b int, c *fakeConn, ok bool, labels m
 		return fmt.Sprintf("event #%d: put(%d, connection %d) was refused but the connection was left open", i, b, c.ID)
 	}
 	return ""
+}
+
+// shutdownLabels classifies what a shutdown is about to meet: idle connections whose Close reports an
+// error or takes time, and whether such a connection is followed (in the order they were returned)
+// by another one of the same backend.
+func shutdownLabels(m *poolModel, pc poolCfg, labels map[string]bool) {
+	for b := 0; b < pc.Backends; b++ {
+		es := m.idle[b]
+		for i, e := range es {
+			if e.c.isClosed() {
+				continue
+			}
+			if e.c.closeFails() || e.c.kind == "real-tls-dead-peer" {
+				labels["shutdown-meets-failing-close"] = true
+				if i < len(es)-1 {
+					labels["shutdown-meets-failing-close-then-others"] = true
+				}
+			}
+			if e.c.delay > 0 {
+				labels["shutdown-meets-slow-close"] = true
+			}
+		}
+	}
 }
